@@ -1,11 +1,12 @@
 """C12 - search-list expansion follows resolv.conf semantics (list part + pure fold over outcomes)."""
+import vlib
 from runner import Stream
 from props import _text as T
 
 ID = "C12"
-IMPORTS = ["CaresProps.C12"]
+IMPORTS = ["CaresProps.C12", "CaresProps.C12b"]
 # only this slice's modules: other builders' files may be mid-edit in the shared lake project
-LEAN_TARGETS = ["CaresProps.C12", "driver_text", "driver_sim"]
+LEAN_TARGETS = ["CaresProps.C12", "CaresProps.C12b", "driver_text", "driver_sim"]
 THEOREMS = [
     "Cares.C12.candidates_order",
     "Cares.C12.only_name_when_not_eligible",
@@ -18,6 +19,7 @@ THEOREMS = [
     "Cares.C12.anyNodata_iff",
     "Cares.C12.pinned_final_status_f21",
 ]
+THEOREMS = THEOREMS + vlib.discover_theorems("CaresProps/C12b.lean")
 TRUSTED = [
     "Lean 4.33.0 kernel; axioms allowed: propext, Classical.choice, Quot.sound",
     "hand-written Lean model of ares_search_name_list / ares_cat_domain / ares_lookup_hostaliases and of the fold performed by "
